@@ -924,3 +924,19 @@ Print Assumptions C03_file_hypsb_ok.
 Print Assumptions C03_file_version_independent.
 Print Assumptions C03_set_wversion_unfold.
 Print Assumptions C03_written_state.
+
+(* ---- the small parser functions are the Python's ----------------------------------------------
+   strip_brackets / useful / mn_compare equal the definitions re-translated on every run from
+   SectionParser.strip_brackets, HeaderItem.useful_mnemonic and SectionItems.mnemonic_compare
+   (translators/funcs.py -> Gen/Funcs.v).  Some: x[0] / x[-1] never raise IndexError. *)
+Require Import Funcs FuncsPinSectionParse.
+Theorem C03_strip_brackets_current : forall x, Some (strip_brackets x) = py_strip_brackets x.
+Proof. exact strip_brackets_pin. Qed.
+Theorem C03_useful_current : forall orig, SectionParse.useful orig = py_useful_mnemonic orig.
+Proof. exact useful_pin. Qed.
+Theorem C03_compare_current : forall transforms one two,
+  SectionParse.mn_compare transforms one two = py_mnemonic_compare transforms one two.
+Proof. exact mn_compare_pin. Qed.
+Print Assumptions C03_strip_brackets_current.
+Print Assumptions C03_useful_current.
+Print Assumptions C03_compare_current.
